@@ -19,9 +19,8 @@ import (
 )
 
 const (
-	c14NPush  = "(*~/registry/remote.manifestStore).push"
-	c14NDel   = "(*~/registry/remote.Repository).delete"
-	c14NFetch = "(*~/registry/remote.Repository).referrersFromIndex"
+	c14NPush = "(*~/registry/remote.manifestStore).push"
+	c14NDel  = "(*~/registry/remote.Repository).delete"
 )
 
 // c14RemoteExpand: unexported helpers of registry/remote are looked into; the
@@ -30,7 +29,7 @@ func c14RemoteExpand(g *ssa.Function) bool {
 	if fnPkgPath(g) != pkgPath(c14PkgRemote) {
 		return false
 	}
-	if FnName(g) == c14NFetch || c14HTTPKind(g) != "" {
+	if c14IsIndexReader(g) || c14HTTPKind(g) != "" {
 		return false
 	}
 	if g.Parent() != nil {
@@ -63,6 +62,26 @@ func c14HTTPKind(g *ssa.Function) string {
 		kind = m
 	}
 	return kind
+}
+
+// c14IsIndexReader: g reads an index by reference: it returns a list of
+// descriptors (and an error) and gets its content through the exported
+// FetchReference; it builds no request of its own.
+func c14IsIndexReader(g *ssa.Function) bool {
+	if g == nil || len(g.Blocks) == 0 || fnPkgPath(g) != pkgPath(c14PkgRemote) || c14HTTPKind(g) != "" {
+		return false
+	}
+	res := g.Signature.Results()
+	hasList := false
+	for i := 0; i < res.Len(); i++ {
+		if sl, ok := res.At(i).Type().Underlying().(*types.Slice); ok && strings.HasSuffix(sl.Elem().String(), "specs-go/v1.Descriptor") {
+			hasList = true
+		}
+	}
+	if !hasList || ErrResultIndex(g.Signature) < 0 {
+		return false
+	}
+	return len(CallsTo(g, "(*~/registry/remote.Repository).FetchReference")) > 0
 }
 
 func c14IsPush(call ssa.CallInstruction) bool { return c14HTTPKind(StaticCallee(call)) == "PUT" }
@@ -176,11 +195,15 @@ func c14R3(c *Ctx) {
 		c.LostAnchor(R, "~/registry/remote.Repository.{referrersMergePool,SkipReferrersGC}")
 		return
 	}
-	for _, n := range []string{"Repository.referrersFromIndex"} {
-		if c.P.Fn(c14PkgRemote, n) == nil {
-			c.LostAnchor(R, "~/registry/remote."+n)
-			return
+	nReaders := 0
+	for _, f := range c.P.FuncsOfPkg(c14PkgRemote) {
+		if c14IsIndexReader(f) {
+			nReaders++
 		}
+	}
+	if nReaders == 0 {
+		c.LostAnchor(R, "the referrers index reader of registry/remote (returns a descriptor list, reads through FetchReference)")
+		return
 	}
 	// every user of Merge.Do in the module
 	var us []*c14Upd
@@ -354,10 +377,10 @@ func c14R3Updater(c *Ctx, u *c14Upd, getGen *ssa.Function) {
 		return
 	}
 	fetch := fetches[0]
-	if CalleeName(fetch) != c14NFetch {
-		c.Undecided(R, pn+"|fetches-index-by-tag", fetch.Pos(), "prepare passes the tag to "+CalleeName(fetch)+", not the confirmed index reader referrersFromIndex: classify it")
+	if !c14IsIndexReader(StaticCallee(fetch)) {
+		c.Undecided(R, pn+"|fetches-index-by-tag", fetch.Pos(), "prepare passes the tag to "+CalleeName(fetch)+", which is not an index reader (descriptor list through FetchReference): classify it")
 	} else {
-		c.OK(R, pn+"|fetches-index-by-tag", fetch.Pos(), "prepare reads the index through referrersFromIndex(ctx, tag)")
+		c.OK(R, pn+"|fetches-index-by-tag", fetch.Pos(), "prepare reads the index by tag through the index reader "+CalleeName(fetch))
 	}
 	rf := c14ErrFlowUp(V, fetch, ErrFlowOpts{Tolerated: []string{"~/errdef.ErrNotFound"}}, 0)
 	c.Check(R, pn+"|fetch-error-surfaces", fetch.Pos(), rf.OK, ifelse(rf.OK, rf.How, "a failed read of the old index (other than not-found) is swallowed: the update would start from an empty list and drop every existing referrer. "+rf.Detail))
@@ -1214,34 +1237,54 @@ func c14R3TagInventory(c *Ctx, us []*c14Upd) {
 		c.LostAnchor(R, "calls of the referrers tag builder "+FnName(tagFn))
 	}
 	// the reader's own use of its tag parameter (one level down)
-	var fetchFn *ssa.Function = c.P.Fn(c14PkgRemote, "Repository.referrersFromIndex")
 	roles := map[string]string{
-		"(*~/internal/syncutil.Pool[T]).Get": "pool key (serialisation point)",
-		c14NFetch:                            "read of the current index",
+		"(*~/internal/syncutil.Pool[T]).Get":             "pool key (serialisation point)",
 		"(*~/registry/remote.Repository).FetchReference": "read (GET by tag)",
 		"fmt.Errorf": "error text",
 	}
-	if fetchFn != nil && len(fetchFn.Params) >= 3 {
-		al := Aliases(fetchFn.Params[2])
-		for _, call := range Calls(fetchFn, func(n string) bool { return !strings.HasPrefix(n, "builtin:") }) {
-			for _, a := range call.Common().Args {
-				hit := al[strip(a)]
-				if sl, ok := a.(*ssa.Slice); ok && !hit {
-					if arr, ok := sl.X.(*ssa.Alloc); ok {
-						for _, r := range *arr.Referrers() {
-							if ia, ok := r.(*ssa.IndexAddr); ok {
-								for _, r2 := range *ia.Referrers() {
-									if st, ok := r2.(*ssa.Store); ok && al[strip(st.Val)] {
-										hit = true
+	for _, fetchFn := range fns {
+		if !c14IsIndexReader(fetchFn) {
+			continue
+		}
+		// which parameters of the reader receive a tag
+		for _, p := range fetchFn.Params {
+			if !tainted[p] {
+				// the reader is not expanded by the taint (it is an effect), so look at its call sites
+				isTagParam := false
+				for _, us := range uses {
+					if StaticCallee(us.call) == fetchFn {
+						for i, a := range us.call.Common().Args {
+							if i < len(fetchFn.Params) && fetchFn.Params[i] == p && (tainted[a] || tainted[strip(a)]) {
+								isTagParam = true
+							}
+						}
+					}
+				}
+				if !isTagParam {
+					continue
+				}
+			}
+			al := Aliases(p)
+			for _, call := range Calls(fetchFn, func(n string) bool { return !strings.HasPrefix(n, "builtin:") }) {
+				for _, a := range call.Common().Args {
+					hit := al[strip(a)]
+					if sl, ok := a.(*ssa.Slice); ok && !hit {
+						if arr, ok := sl.X.(*ssa.Alloc); ok {
+							for _, r := range *arr.Referrers() {
+								if ia, ok := r.(*ssa.IndexAddr); ok {
+									for _, r2 := range *ia.Referrers() {
+										if st, ok := r2.(*ssa.Store); ok && al[strip(st.Val)] {
+											hit = true
+										}
 									}
 								}
 							}
 						}
 					}
-				}
-				if hit {
-					uses = append(uses, use{fetchFn, call})
-					break
+					if hit {
+						uses = append(uses, use{fetchFn, call})
+						break
+					}
 				}
 			}
 		}
@@ -1258,6 +1301,9 @@ func c14R3TagInventory(c *Ctx, us []*c14Upd) {
 	for _, us := range uses {
 		name := CalleeName(us.call)
 		role, known := roles[name]
+		if c14IsIndexReader(StaticCallee(us.call)) {
+			role, known, name = "read of the current index", true, "index-reader"
+		}
 		isPush := c14IsPush(us.call)
 		if isPush {
 			role, known, name = "THE write: push (HTTP PUT) of the new index, inside the update callback run by Merge.Do", true, "push(PUT)"
